@@ -47,4 +47,16 @@ var fixedOps = []string{
 	"specdec 4 varint 00ffffffffffffffff k uint64", "dec 4 varint 00ffffffffffffffff k uint", "dec 4 varint 00ffffffffffffffff nk uint64",
 	"specdec 4 varint ff7f k int16", "specdec 4 varint 0080 k int8", "specdec 4 date 7fffffff time", "specdec 4 timestamp ffffffffffffffff time",
 	"dec 4 blob - bytes", "dec 4 blob - nbytes", "dec 4 blob null bytes",
+	// the 2-byte framing of protocol <= 2: unsigned [short] lengths and counts, both directions, both sides of 2^15 / 2^16
+	"spec 2 list blob sl bytes 3 b 68 b rep:61:32768 b 74", "spec 2 list text sl string 1 s rep:61:65535", "spec 2 list text sl string 1 s rep:61:65536",
+	"spec 2 list text slrep string 65535 s -", "spec 2 list text slrep string 65536 s -",
+	"specdec 2 list blob 0003+000168+7fff+rep:61:32767+000174 slice string", "specdec 2 list blob 0003+000168+8000+rep:61:32768+000174 slice string",
+	"specdec 1 map text int 0001+ffff+rep:6b:65535+000400000007 map string k int", "specdec 2 map int text 0001+000400000001+9c40+rep:76:40000 map k int string",
+	"specdec 2 list text 8000+rep:00:65536 slice string", "specdec 2 set text ffff+rep:00:131070 slice string",
+	"specdec 3 list blob 00000001+00010000+rep:61:65536 slice string",
+	// null (-1) / EMPTY (0) / value in tuple and UDT fields; short UDT; null vs empty UDT value
+	"specdec 4 tuple 3 text text text ffffffff+00000000+0000000141 struct 3 ptr string ptr string ptr string",
+	"specdec 4 tuple 3 text text text ffffffff+00000000+0000000141 ifs 3 ptr string ptr string string",
+	"specdec 4 udt 2 a text b text 00000000+ffffffff ustruct 2 a ptr string b ptr string", "specdec 4 udt 2 a text b text 00000000 umap",
+	"specdec 4 tuple 2 udt 1 a int udt 1 a int 00000000+ffffffff slice iface", "specdec 4 tuple 1 text 00000000 array 1 ptr string",
 }
